@@ -33,6 +33,8 @@ Rules applied to copied text (all line preserving, all counted in the report):
   R11 `x += e;` for a local declared `let mut x: f32|f64` -> `x = crate::shim::f_add(x, e);`
   R12 `path <op> <float literal or float local>` (op in <=,<,>=,>) -> `crate::shim::f_le|f_lt|f_ge|f_gt(path, literal)`
   R14 `(<lit>..=<lit>).contains(&e)` -> `crate::shim::f_in_incl(<lit>, <lit>, e)`
+  R18 `&s[<int>..<int>]` / `&s[<int>..]` for a parameter `s: &str` -> `crate::shim::str_sub(s, lo, Some(hi)|None)`
+      (opaque; whether the slice panics is not claimed)
   R15 `rng.gen_range(<lit>..<lit>)` -> `crate::shim::gen_range_f(rng, <lit>, <lit>)`
       (R12 also applies when one side is a float local: a local declared f32/f64 or initialised with a
       float literal or with such a gen_range call)
@@ -40,6 +42,8 @@ Rules applied to copied text (all line preserving, all counted in the report):
       say "the result is a function of the operands" (uninterpreted fle/flt/fge/fgt/fadd/fin).
   R13 `for (i, x) in E.iter().enumerate() {` -> `let mut r13_i = 0; let r13_n = E.len(); while r13_i < r13_n
       { let i = r13_i; let x = &E[r13_i]; r13_i = r13_i + 1;` (definition of slice::Iter + Enumerate).
+  R19 a file-level `const` of the same file that a verified body names, and that the template does not
+      bring in itself, is copied in front of the container.
   R16 `for (a, b) in X.iter_mut().zip(Y.iter()) {` -> `let mut r16_i = 0; let r16_n = min(X.len(), Y.len());
       while r16_i < r16_n { let a = &mut X[r16_i]; let b = &Y[r16_i]; r16_i = r16_i + 1;` (definition of Zip
       over two slice iterators: stops at the shorter one).
@@ -323,6 +327,26 @@ class Extractor:
                 raise LostAnchor("template: unknown directive %r" % s)
             elif sub is not None:
                 sub.append(l)
+        # R19: file-level `const` items of the same source file that a verified body names and that the
+        # template has not already brought in are copied in front of the container
+        emitted = "\n".join(self.out.lines)
+        for f in fns:
+            if f["opts"].get("external_body"):
+                continue
+            sp = self.fn_span(src, f["name"], bo, bc)
+            if sp[4] is None:
+                continue
+            for ident in sorted(set(re.findall(r"\b[A-Z][A-Z0-9_]{2,}\b", src.code[sp[3]:sp[4]]))):
+                m = re.search(r"(?m)^(?:pub(?:\([a-z]+\))?\s+)?const\s+%s\s*:[^;]*;" % re.escape(ident), src.code)
+                if not m or re.search(r"\bconst\s+%s\b" % re.escape(ident), emitted):
+                    continue
+                k0, k1 = src.line_of(m.start()), src.line_of(m.end() - 1)
+                for k in range(k0, k1 + 1):
+                    self.out.emit_src(src, k, self.rewrite_line(src.lines[k], opts))
+                emitted += "\nconst %s " % ident
+                self.hit("R19.const")
+                self.report["items"].append({"item": "const " + ident + " (R19)", "file": rel, "lines": [k0 + 1, k1 + 1],
+                                             "sha256": hashlib.sha256(src.src[m.start():m.end()].encode()).hexdigest()})
         # header
         for k in range(first, bo_ln + 1):
             self.out.emit_src(src, k, self.rewrite_line(src.lines[k], opts))
@@ -466,7 +490,7 @@ class Extractor:
             tgt[hit] = tgt.get(hit, []) + pa["text"]
         drop_tail = fo.get("drop_tail")
         tail_dropped = False
-        ovr = self.shim_overrides(src, p_open, p_close, rec, name) if fo.get("shims") else {}
+        ovr = self.shim_overrides(src, p_open, p_close, rec, name, fo.get("floats")) if fo.get("shims") else {}
         for k in ovr:
             if k in loop_open_ln or k == open_ln:
                 raise LostAnchor("shim rule would rewrite a loop header / signature line in fn %s" % name)
@@ -635,7 +659,7 @@ class Extractor:
         if drop_tail and not tail_dropped:
             raise LostAnchor("drop_tail %r not found in fn %s" % (drop_tail, name))
 
-    def shim_overrides(self, src, p_open, p_close, rec, name):
+    def shim_overrides(self, src, p_open, p_close, rec, name, float_names=None):
         """rules R10, R11, R12, R14 on the body text; returns {line index: new text}.  Edits are
         computed on code-only text (comments and literals masked) and never change the line count."""
         code, text = src.code, src.src
@@ -665,8 +689,16 @@ class Extractor:
                 raise LostAnchor("R14: multi-line contains() argument in fn %s" % name)
             edits.append((p_open + m.start(), pc + 1,
                           "crate::shim::f_in_incl(%s, %s, %s)" % (m.group(1), m.group(2), arg.strip()), "R14"))
+        # R18: slicing a `&str` parameter by a literal byte range -> crate::shim::str_sub (no panic-freedom claim)
+        sig_lo = code.rfind("fn ", 0, p_open)
+        strs = set(re.findall(r"\b(\w+)\s*:\s*&\s*(?:'\w+\s+)?str\b", code[sig_lo:p_open]))
+        for v in sorted(strs):
+            for m in re.finditer(r"&\s*%s\s*\[\s*(\d*)\s*\.\.\s*(\d*)\s*\]" % re.escape(v), code[p_open:p_close]):
+                lo_, hi_ = m.group(1) or "0", m.group(2)
+                edits.append((p_open + m.start(), p_open + m.end(),
+                              "crate::shim::str_sub(%s, %s, %s)" % (v, lo_, ("Some(%s)" % hi_) if hi_ else "None"), "R18"))
         # R15: rand's `rng.gen_range(<lit>..<lit>)` -> crate::shim::gen_range_f(rng, <lit>, <lit>)
-        for m in re.finditer(r"\b(\w+)\.gen_range\(\s*(\d+\.\d+)\s*\.\.(=?)\s*(\d+\.\d+)\s*\)", code[p_open:p_close]):
+        for m in re.finditer(r"\b(\w+)\.gen_range\(\s*(\d+\.\d+|[a-z_]\w*)\s*\.\.(=?)\s*(\d+\.\d+|[a-z_]\w*)\s*\)", code[p_open:p_close]):
             edits.append((p_open + m.start(), p_open + m.end(),
                           "crate::shim::gen_range%s_f(%s, %s, %s)" % ("_incl" if m.group(3) else "", m.group(1), m.group(2), m.group(4)), "R15"))
         # float locals, recognised lexically: declared with a float type, or initialised with a float
@@ -679,18 +711,75 @@ class Extractor:
                 a, b = p_open + m.start() + len(m.group(1)), p_open + m.end()
                 e = text[p_open + m.start(2):p_open + m.end(2)]
                 edits.append((a, b, "%s = crate::shim::f_add(%s, %s);" % (v, v, e.strip()), "R11"))
-        ops = {"<=": "f_le", "<": "f_lt", ">=": "f_ge", ">": "f_gt"}
+        fl |= set(x.strip() for x in (float_names or "").split(",") if x.strip())
+        # R11b: `let x = A <aop> B;` with A, B float atoms -> `let x = crate::shim::f_<aop>(A, B);` (x is then a float local)
+        aops = {"+": "f_add", "-": "f_sub", "*": "f_mul", "/": "f_div"}
+        lit = r"\d[\d_]*\.\d[\d_]*"
         path = r"(?:[A-Za-z_]\w*)(?:\.\w+)*"
-        lit = r"\d+\.\d+"
-        for m in re.finditer(r"(?<![\w.])(%s|%s)\s*(<=|>=|<|>)\s*(%s|%s)(?![\w.(])" % (path, lit, path, lit), code[p_open:p_close]):
-            l_, r_ = m.group(1), m.group(3)
-            is_f = lambda x: re.fullmatch(lit, x) is not None or x in fl
-            if not (is_f(l_) or is_f(r_)):
+        is_lit = lambda x: re.fullmatch(lit, x) is not None
+        changed = True
+        while changed:
+            changed = False
+            for m in re.finditer(r"\blet\s+(?:mut\s+)?(\w+)\s*=\s*(%s|%s)\s*([-+*/])\s*(%s|%s)\s*;" % (path, lit, path, lit), code[p_open:p_close]):
+                x, a_, op_, b_ = m.group(1), m.group(2), m.group(3), m.group(4)
+                if x in fl or not ((a_ in fl or is_lit(a_)) and (b_ in fl or is_lit(b_))):
+                    continue
+                fl.add(x)
+                changed = True
+                edits.append((p_open + m.start(2), p_open + m.end(4), "crate::shim::%s(%s, %s)" % (aops[op_], a_, b_), "R11"))
+        # R12: comparisons in which a float atom takes part.  Token based: an operand is `atom` or
+        # `atom <aop> atom`; anything more complex next to a float comparison is refused (exit 2).
+        ops = {"<=": "f_le", "<": "f_lt", ">=": "f_ge", ">": "f_gt", "==": "f_eq", "!=": "f_ne"}
+        tok_re = re.compile(r"\s+|(%s)|(%s)|(\d\w*)|(<=|>=|==|!=|&&|\|\||->|=>|::|\.\.=|\.\.|[-+*/%%<>=!&|^.,;:(){}\[\]#?@$~'\"\\])" % (lit, path))
+        toks, pos_ = [], p_open
+        while pos_ < p_close:
+            m = tok_re.match(code, pos_)
+            if not m or m.end() == pos_:
+                pos_ += 1
                 continue
-            a, b = p_open + m.start(), p_open + m.end()
+            if m.group(0).strip():
+                toks.append((m.group(0), m.start(), m.end()))
+            pos_ = m.end()
+        is_atom = lambda t: re.fullmatch(lit, t) is not None or (re.fullmatch(path, t) is not None and t not in
+                                                               ("if", "while", "return", "let", "mut", "match", "else", "in", "as"))
+        is_f = lambda t: is_lit(t) or t in fl
+        LEFT_OK = {"(", "||", "&&", "!", "if", "{", "=", ",", "return", "while", ";"}
+        RIGHT_OK = {")", "||", "&&", "{", ";", ","}
+
+        def term_left(i):
+            """tokens ending at index i that form a term; returns (start_index, text, atoms) or None"""
+            if i < 0 or not is_atom(toks[i][0]):
+                return None
+            if i >= 2 and toks[i - 1][0] in aops and is_atom(toks[i - 2][0]):
+                return (i - 2, "crate::shim::%s(%s, %s)" % (aops[toks[i - 1][0]], toks[i - 2][0], toks[i][0]), [toks[i - 2][0], toks[i][0]])
+            return (i, toks[i][0], [toks[i][0]])
+
+        def term_right(i):
+            if i >= len(toks) or not is_atom(toks[i][0]):
+                return None
+            if i + 2 < len(toks) and toks[i + 1][0] in aops and is_atom(toks[i + 2][0]):
+                return (i + 2, "crate::shim::%s(%s, %s)" % (aops[toks[i + 1][0]], toks[i][0], toks[i + 2][0]), [toks[i][0], toks[i + 2][0]])
+            return (i, toks[i][0], [toks[i][0]])
+
+        for i, (t, ts, te) in enumerate(toks):
+            if t not in ops:
+                continue
+            L, R = term_left(i - 1), term_right(i + 1)
+            near = [toks[j][0] for j in (i - 1, i + 1) if 0 <= j < len(toks)]
+            if L is None or R is None:
+                if any(is_f(x) for x in near):
+                    raise LostAnchor("R12: float comparison with an operand the shim rules cannot rewrite in fn %s" % name)
+                continue
+            if not any(is_f(x) for x in L[2] + R[2]):
+                continue
+            lprev = toks[L[0] - 1][0] if L[0] > 0 else "{"
+            rnext = toks[R[0] + 1][0] if R[0] + 1 < len(toks) else ";"
+            if lprev not in LEFT_OK or rnext not in RIGHT_OK:
+                raise LostAnchor("R12: float comparison with a compound operand (%s .. %s) in fn %s" % (lprev, rnext, name))
+            a, b = toks[L[0]][1], toks[R[0]][2]
             if overlaps(a, b):
                 continue
-            edits.append((a, b, "crate::shim::%s(%s, %s)" % (ops[m.group(2)], l_, r_), "R12"))
+            edits.append((a, b, "crate::shim::%s(%s, %s)" % (ops[t], L[1], R[1]), "R12"))
         if not edits:
             return {}
         edits.sort()
